@@ -64,6 +64,8 @@ type Task struct {
 	Stack   string
 	// Local is free for worlds (e.g. per-task scratch).
 	Local any
+	// Locks counts the simulated mutexes the task holds (kept by simsync).
+	Locks int
 }
 
 type event struct {
@@ -142,6 +144,7 @@ type World struct {
 	nextPrio     int
 	lastProgress int
 	contRun      int // consecutive "continue" decisions of the running task
+	hot          bool // the pending scheduling point is an unguarded statement (YieldStmt)
 }
 
 // W is the world of the run in progress (nil outside Run).
@@ -396,6 +399,23 @@ func Yield() {
 	w.dispatch(t)
 }
 
+// YieldStmt is the scheduling point the rewriter's variant "stmt" puts before every statement of
+// the functions that guard shared state with a mutex. While the task holds a lock it is an
+// ordinary scheduling point. While it holds none, the statement touches (or may touch) the
+// shared state unprotected - the code after an early unlock, before a late lock, or outside the
+// critical section altogether - and the scheduler is biased towards letting another task run
+// right there, because such windows are a few statements wide in runs of 10^5 scheduling points.
+func YieldStmt() {
+	w := W
+	if w == nil || w.ended || w.cur == nil {
+		return
+	}
+	if w.cur.Locks == 0 {
+		w.hot = true
+	}
+	Yield()
+}
+
 // Park blocks the calling task until another task or event calls Ready on it.
 // why describes what it waits for (diagnostics, deadlock reports).
 func Park(why string) {
@@ -521,7 +541,14 @@ func (w *World) pick(self *Task) *Task {
 		return cands[0]
 	}
 	continuing := cands[0] == self
+	hot := w.hot
+	w.hot = false
 	idx := int(w.Tape.Raw(SSched, func(r *splitmix) uint32 {
+		if hot && continuing && r.next()%3 == 0 {
+			// an unguarded statement of lock-guarded code: whatever the policy, one time in
+			// three somebody else runs first
+			return uint32(1 + r.next()%uint64(len(cands)-1))
+		}
 		return uint32(w.policyPick(r, cands, continuing))
 	}) % uint32(len(cands)))
 	// weak fairness, independent of the tape: a task may not continue
